@@ -8,3 +8,4 @@ for p in C01 C02 C03 C04 C05 C06 C07 C08 C09 C10 C11 C12 C13 C14 C15 C16 C17 C18
   echo "$p tier=$tier seed=$seed exit=$c time=$(( $(date +%s) - t0 ))s $(echo "$out" | grep -E "^$p " | sed 's/.*evaluations=/evaluations=/' | cut -c1-120)"
   [ $c -ne 0 ] && echo "$out" | grep -E "signature=|INCONCL|HARNESS" | head -5 | cut -c1-300
 done
+exit 0
